@@ -151,7 +151,7 @@ def run(tier, seed):
     # the consumer's code can also be the projection function of evaluate_bounded: every raise point,
     # validated against spec/EvalBounded.tla (bindings undone, limit restored)
     from . import c17
-    c17.family(chk, tier, seed, only=[0, 3, 7, -2, -1])
+    c17.family(chk, tier, seed, only=[0, 3, 7, -3, -2, -1])
     # "a query or unification generator": every start state of spec/UnifyGen.tla on the real unify, ended three
     # ways, created before / started under other unifications (see harness/props/c02.py)
     from . import c02
